@@ -477,7 +477,7 @@ func otherScenarios(r *h.Run) {
 	for i, n := 0, r.N(10, 60); i < n; i++ {
 		runGated(r, genGated(r, i))
 	}
-	for i, n := 0, r.N(100, 1500); i < n; i++ {
+	for i, n := 0, r.N(80, 1500); i < n; i++ {
 		runConc(r, genConc(r, i))
 	}
 	zipcutScenarios(r)
